@@ -256,8 +256,24 @@ fn exec_one(sc: &Scenario, ctx: &mut Ctx) -> Vec<Violation> {
     ctx.begin(sc);
     let input = sc.b("input");
     let mut out = Vec::new();
-    let mut r: &[u8] = input;
-    let v = call_decoder(EP_XZ, &mut r, &mut out, &OptSpec::default(), &RawSpec::default());
+    // the property does not depend on the reader: each case is decoded through
+    // the reader behaviour the scenario names (slice, or scripted refills)
+    let (v, _) = run_with_reader(
+        EP_XZ,
+        input,
+        if sc.l("src_script").is_empty() { RK_SLICE } else { RK_SIM },
+        sc.l("src_script"),
+        crate::env::Faults::none(),
+        0,
+        &mut out,
+        &OptSpec::default(),
+        &RawSpec::default(),
+        0,
+        0,
+    );
+    if !sc.l("src_script").is_empty() {
+        ctx.stats.hit("arm.decoded_through_fragmented_reader");
+    }
     let field = sc.note.split(" | ").next().unwrap_or("?").to_string();
     ctx.stats.eval(sc.hash(), true, 1);
     match &v {
@@ -307,7 +323,7 @@ impl Property for C06 {
         "fault_enumeration"
     }
     fn rule(&self) -> &'static str {
-        "per seeded valid .xz file (0-3 blocks, check None/CRC32/CRC64, optional fields, paddings): (a) one bit flipped — every bit position in the thorough tier, a sample in quick; (b) truncation at every (sampled) offset; (c) every integrity/size field (magics, stream flags, the 4 kinds of CRC32, backward size, index count and records, declared block sizes, size byte, all paddings, check field) replaced by values from {0, 1, true±1, true+4, true+2^30·k, true+2^32, 2^31, 2^32-1, 2^63-1, random} with every enclosing CRC recomputed. One evaluation = one mutated file through xz_decompress; Ok obliges (1) the field-exact judge to confirm every listed field against the delivered bytes and (2) for CRC32/CRC64 files delivered == original; all cases distinct by scenario hash and non-trivial"
+        "per seeded valid .xz file (0-3 blocks, check None/CRC32/CRC64, optional fields, paddings): (a) one bit flipped — every bit position in the thorough tier, a sample in quick; (b) truncation at every (sampled) offset; (c) every integrity/size field (magics, stream flags, the 4 kinds of CRC32, backward size, index count and records, declared block sizes, size byte, all paddings, check field) replaced by values from {0, 1, true±1, true+4, true+2^30·k, true+2^32, 2^31, 2^32-1, 2^63-1, random} with every enclosing CRC recomputed. One evaluation = one mutated file through xz_decompress (reader rotating over: slice, 1-byte refills, fixed k, irregular refills); Ok obliges (1) the field-exact judge to confirm every listed field against the delivered bytes and (2) for CRC32/CRC64 files delivered == original; all cases distinct by scenario hash and non-trivial"
     }
     fn runs(&self, tier: Tier) -> u64 {
         match tier {
@@ -333,8 +349,16 @@ impl Property for C06 {
         let built = build_xz(&plan);
         let crc = (plan.check_id == 1 || plan.check_id == 4) as u64;
         let thorough = ctx.tier == Tier::Thorough;
+        // reader behaviour for this file's cases: rotates per case
+        let scripts: [Vec<u64>; 4] = [vec![], vec![1], vec![t.range(2, 9)], vec![t.range(1, 4), t.range(1, 40), 1]];
+        let case_no = std::cell::Cell::new(t.below(4) as usize);
         let mk = |bytes: Vec<u8>, note: String| {
             let mut sc = Scenario::new("c06");
+            case_no.set(case_no.get() + 1);
+            let script = &scripts[case_no.get() % 4];
+            if !script.is_empty() {
+                sc.set_l("src_script", script.clone());
+            }
             sc.set_b("input", bytes);
             sc.set_b("original", built.content.clone());
             sc.set_i("crc_protected", crc);
